@@ -10,7 +10,7 @@ from spec.user import error_ok
 from pjrpc.common.common import UNSET
 from pjrpc.common.exceptions import (InternalError, InvalidParamsError, InvalidRequestError, JsonRpcError,
                                      MethodNotFoundError, ParseError, ServerError)
-from pjrpc.common.v20 import Request, Response
+from pjrpc.common.v20 import BatchResponse, Request, Response
 
 
 @contract('pjrpc.server.dispatcher:Method.bind', also=('pjrpc.server.dispatcher:ViewMethod.bind',), props=['C04'])
@@ -317,3 +317,49 @@ class DispatcherInit:
 
     def ensures_chain(self, result):
         return chain_def(self, self._request_handler, 0) and uf('is_chain', self, self._request_handler, 0)
+
+
+# ------------------------------------------------------------------------------------------------ C01: the codes tuple
+def code_or_zero(r):
+    return r._error.code if r._error is not UNSET else 0
+
+
+@contract('pjrpc.server.dispatcher:extract_error_codes', props=['C01'])
+class ExtractErrorCodes:
+    """C01: the error codes returned alongside the document: one per response object, the error code or 0 for a success;
+    a batch-level error is one code.  (A response's `error` is UNSET or a JsonRpcError - class invariant.)"""
+    types = {'response': 'pjrpc.common.v20:Response|pjrpc.common.v20:BatchResponse'}
+    raises_only = ()
+    result_type = '=tuple'
+    cross_check = False
+    comp_codes = {'elt_contains': 'error.code'}
+    assumed_clauses = ('ensures_batch',)
+
+    def requires_inv(response):
+        if isinstance(response, BatchResponse):
+            return ((response._error is UNSET or isinstance(response._error, JsonRpcError))
+                    and all(r._error is UNSET or isinstance(r._error, JsonRpcError) for r in response._responses))
+        return response._error is UNSET or isinstance(response._error, JsonRpcError)
+
+    def comp_codes__source(response, xs):
+        return seq_same(xs, response._responses)
+
+    def comp_codes__element(response, x, y):
+        return same(y, code_or_zero(x))
+
+    def ensures_single(response, result):
+        if isinstance(response, BatchResponse):
+            return True
+        return len(result) == 1 and same(result[0], code_or_zero(response))
+
+    def ensures_batch_error(response, result):
+        if not isinstance(response, BatchResponse) or response._error is UNSET:
+            return True
+        return len(result) == 1 and same(result[0], response._error.code)
+
+    def ensures_batch(response, result):
+        # the quantified form of the comprehension contract above (assumed clause: trusted comprehension semantics)
+        if not isinstance(response, BatchResponse) or response._error is not UNSET:
+            return True
+        return (len(result) == len(response._responses)
+                and all(same(result[i], code_or_zero(response._responses[i])) for i in range(len(result))))
